@@ -1,6 +1,7 @@
 import XL.Model.Lex
 import XL.Proofs.Range
 import XL.Proofs.ParseRender
+import XL.Proofs.ParseMin
 /-!
 # C01 — formulas are parsed according to Excel's operator grammar
 
@@ -149,5 +150,134 @@ theorem exTree_canon : Canon exTree := by
   · exact Canon.percent _ (Canon.call _ _ (by intro a ha; simp at ha; rcases ha with rfl | rfl <;> exact Canon.operand _ _))
 
 example : parseToks (toks exTree) = .ok exTree := parse_toks exTree exTree_canon
+
+/-! ### precedence and associativity determine the tree (token level, unbounded) -/
+
+/-- **any sufficiently parenthesised spelling is read back as the tree** — `Sp t ts q`: `ts` spells `t`
+with parentheses wherever the grammar needs them (the left operand of an operator of strength `p` is
+spelled with outermost strength `≥ p`, the right operand with `> p`: all binary operators group
+left to right; `%` takes `≥ 6`, a prefix sign `> 7`) and any number of further, redundant ones.  Trees of
+every size and depth, calls with any number of arguments. -/
+theorem any_spelling_parses (t : Ast) (ts : List Tok) (q : Nat) (h : Sp t ts q) : parseToks ts = .ok t :=
+  parse_spelling t ts q h
+
+/-- **the spelling with the fewest parentheses is read back as the tree** (`toksM`: parentheses only
+where a weaker operator is an operand of a stronger one, or an equally strong one stands on the right) -/
+theorem minimal_spelling_parses (t : Ast) (h : WF t) : parseToks (toksM t) = .ok t := parse_min t h
+
+/-- a token list is a spelling of at most one tree: parentheses, precedence and left-to-right grouping
+leave no ambiguity -/
+theorem spelling_unambiguous (t t' : Ast) (ts : List Tok) (q q' : Nat) (h : Sp t ts q) (h' : Sp t' ts q') : t = t' :=
+  spelling_unique t t' ts q q' h h'
+
+/-- left-to-right grouping, for every binary operator and all operands: `a ∘ b ∘ c` without
+parentheses is `(a ∘ b) ∘ c` — exponentiation included -/
+theorem groups_left_to_right (name : String) (hn : name ∈ binNames) (a b c : Ast) (ta tb tc : List Tok)
+    (ha : Sp a ta 9) (hb : Sp b tb 9) (hc : Sp c tc 9) :
+    parseToks (ta ++ .opr name :: tb ++ .opr name :: tc) = .ok (.op name [.op name [a, b], c]) := by
+  obtain ⟨_, hp5⟩ := prec_bin name hn
+  have h1 := Sp.bin name a b ta tb 9 9 hn ha hb (by omega) (by omega)
+  have h2 := Sp.bin name (.op name [a, b]) c _ tc (prec name) 9 hn h1 hc (Nat.le_refl _) (by omega)
+  have := parse_spelling _ _ _ h2
+  simpa [List.append_assoc] using this
+
+/-- a stronger operator on the right takes its operands first: `a ∘ b • c` is `a ∘ (b • c)` when `•`
+binds more strongly than `∘`; a weaker or equal one does not: `a • b ∘ c` is `(a • b) ∘ c` -/
+theorem stronger_binds_first (m n : String) (hm : m ∈ binNames) (hn : n ∈ binNames) (hlt : prec m < prec n)
+    (a b c : Ast) (ta tb tc : List Tok) (ha : Sp a ta 9) (hb : Sp b tb 9) (hc : Sp c tc 9) :
+    parseToks (ta ++ .opr m :: (tb ++ .opr n :: tc)) = .ok (.op m [a, .op n [b, c]]) ∧
+    parseToks (ta ++ .opr n :: tb ++ .opr m :: tc) = .ok (.op m [.op n [a, b], c]) := by
+  obtain ⟨_, hm5⟩ := prec_bin m hm
+  obtain ⟨_, hn5⟩ := prec_bin n hn
+  constructor
+  · have h1 := Sp.bin n b c tb tc 9 9 hn hb hc (by omega) (by omega)
+    exact parse_spelling _ _ _ (Sp.bin m a (.op n [b, c]) ta _ 9 (prec n) hm ha h1 (by omega) hlt)
+  · have h1 := Sp.bin n a b ta tb 9 9 hn ha hb (by omega) (by omega)
+    have h2 := Sp.bin m (.op n [a, b]) c _ tc (prec n) 9 hm h1 hc (by omega) (by omega)
+    have := parse_spelling _ _ _ h2
+    simpa [List.append_assoc] using this
+
+/-- a prefix sign binds more strongly than every binary operator and than `%`: `-a ∘ b` is `(-a) ∘ b`
+and `-a%` is `(-a)%` -/
+theorem sign_binds_strongest (sgn : String) (hs : sgn ∈ signNames) (n : String) (hn : n ∈ binNames)
+    (a b : Ast) (ta tb : List Tok) (ha : Sp a ta 9) (hb : Sp b tb 9) :
+    parseToks (.opr (signSym sgn) :: ta ++ .opr n :: tb) = .ok (.op n [.op sgn [a], b]) ∧
+    parseToks (.opr (signSym sgn) :: ta ++ [.opr "%"]) = .ok (.op "%" [.op sgn [a]]) := by
+  obtain ⟨_, hn5⟩ := prec_bin n hn
+  have h1 := Sp.sign sgn a ta 9 hs ha (by omega)
+  constructor
+  · have := parse_spelling _ _ _ (Sp.bin n (.op sgn [a]) b _ tb 7 9 hn h1 hb (by omega) (by omega))
+    simpa using this
+  · have := parse_spelling _ _ _ (Sp.percent (.op sgn [a]) _ 7 h1 (by omega))
+    simpa using this
+
+/-- **empty arguments keep their position** (unbounded form of `empty_arguments_keep_position`): whatever the
+spellings `ta`, `tb` of two arguments, `F(ta,,tb)`, `F(,ta)` and `F(ta,)` are calls with the empty argument
+exactly where nothing was written -/
+theorem empty_argument_positions (f : String) (a b : Ast) (ta tb : List Tok) (qa qb : Nat)
+    (ha : Sp a ta qa) (hb : Sp b tb qb) (hta : ta ≠ []) (htb : tb ≠ []) :
+    parseToks (.fn f :: (ta ++ .sep :: .sep :: tb ++ [.rp])) = .ok (.call f [a, .operand .empty "", b]) ∧
+    parseToks (.fn f :: (.sep :: ta ++ [.rp])) = .ok (.call f [.operand .empty "", a]) ∧
+    parseToks (.fn f :: (ta ++ [.sep] ++ [.rp])) = .ok (.call f [a, .operand .empty ""]) := by
+  refine ⟨?_, ?_, ?_⟩
+  · have := parse_spelling _ _ _ (Sp.call f [(a, ta, qa), (.operand .empty "", [], 0), (b, tb, qb)]
+      (by intro x hx hne; simp at hx; rcases hx with rfl | rfl | rfl
+          · exact ha
+          · exact absurd rfl hne
+          · exact hb)
+      (by intro x hx hnil; simp at hx; rcases hx with rfl | rfl | rfl
+          · exact absurd hnil hta
+          · rfl
+          · exact absurd hnil htb)
+      (by intro x hx; simp at hx))
+    simpa [joinSep] using this
+  · have := parse_spelling _ _ _ (Sp.call f [(.operand .empty "", [], 0), (a, ta, qa)]
+      (by intro x hx hne; simp at hx; rcases hx with rfl | rfl
+          · exact absurd rfl hne
+          · exact ha)
+      (by intro x hx hnil; simp at hx; rcases hx with rfl | rfl
+          · rfl
+          · exact absurd hnil hta)
+      (by intro x hx; simp at hx))
+    simpa [joinSep] using this
+  · have := parse_spelling _ _ _ (Sp.call f [(a, ta, qa), (.operand .empty "", [], 0)]
+      (by intro x hx hne; simp at hx; rcases hx with rfl | rfl
+          · exact ha
+          · exact absurd rfl hne)
+      (by intro x hx hnil; simp at hx; rcases hx with rfl | rfl
+          · exact absurd hnil hta
+          · rfl)
+      (by intro x hx; simp at hx))
+    simpa [joinSep] using this
+
+/-- non-vacuity: `1 - 2 - (3 - 4) ^ -A1% * SUM(2, 5 & "x", F())` is well formed; its minimal spelling has
+exactly one pair of parentheses and parses back -/
+def exTree2 : Ast :=
+  .op "-" [.op "-" [.operand .num "1", .operand .num "2"],
+    .op "*" [.op "^" [.op "-" [.operand .num "3", .operand .num "4"], .op "%" [.op "u-" [.operand .range "A1"]]],
+      .call "SUM" [.operand .num "2", .op "&" [.operand .num "5", .operand .str "x"], .call "F" []]]]
+
+theorem exTree2_wf : WF exTree2 := by
+  refine WF.bin _ _ _ (by decide) (WF.bin _ _ _ (by decide) (WF.operand _ _) (WF.operand _ _)) (WF.bin _ _ _ (by decide) ?_ ?_)
+  · exact WF.bin _ _ _ (by decide) (WF.bin _ _ _ (by decide) (WF.operand _ _) (WF.operand _ _))
+      (WF.percent _ (WF.sign _ _ (by decide) (WF.operand _ _)))
+  · refine WF.call _ _ ?_ ?_ ?_
+    · intro a ha _
+      simp at ha
+      rcases ha with rfl | rfl | rfl
+      · exact WF.operand _ _
+      · exact WF.bin _ _ _ (by decide) (WF.operand _ _) (WF.operand _ _)
+      · exact WF.call _ _ (by intro a ha; simp at ha) (by intro a ha; simp at ha) (by intro a ha; simp at ha)
+    · intro a ha he
+      simp at ha
+      rcases ha with rfl | rfl | rfl <;> simp [isEmptyArg] at he
+    · intro a ha; simp at ha
+
+example : parseToks (toksM exTree2) = .ok exTree2 := parse_min exTree2 exTree2_wf
+
+example : toksM exTree2 =
+    [.operand .num "1", .opr "-", .operand .num "2", .opr "-", .lp, .operand .num "3", .opr "-", .operand .num "4", .rp,
+     .opr "^", .opr "-", .operand .range "A1", .opr "%", .opr "*", .fn "SUM", .operand .num "2", .sep,
+     .operand .num "5", .opr "&", .operand .str "x", .sep, .fn "F", .rp, .rp] := by decide
 
 end XL.C01
